@@ -34,7 +34,7 @@ PROPS = {
                 wall_cap={"quick": 1800, "thorough": 4 * 3600}),
     "C02": dict(engine="store", gen="gen_c02", nops=(3, 9), runs={"quick": 400, "thorough": 8000},
                 level="exploration", faults=True, batch=8),
-    "C06": dict(engine="store", gen="gen_c06", nops=(2, 6), runs={"quick": 480, "thorough": 9000},
+    "C06": dict(engine="store", gen="gen_c06", nops=(2, 6), runs={"quick": 480, "thorough": 5000},
                 level="exploration", batch=8),
     "C07": dict(engine="store", gen="gen_c07", nops=(3, 9), runs={"quick": 480, "thorough": 9000},
                 level="exploration", batch=8),
